@@ -285,6 +285,73 @@ def purity_check(ctx, rng, thunks, mon="purity", rounds=2, scribble=False):
     return not bad
 
 
+def _norm_result(y):
+    if isinstance(y, (tuple, list)):
+        return [_norm_result(v) for v in y]
+    return np.array(y, copy=True)
+
+
+def _same_result(a, b):
+    if isinstance(a, list):
+        return isinstance(b, list) and len(a) == len(b) and all(_same_result(x, y) for x, y in zip(a, b))
+    return a.shape == b.shape and np.array_equal(a, b, equal_nan=True)
+
+
+def retention_check(ctx, thunks, mon="retention"):
+    """thunks as in purity_check (every call gets FRESH argument arrays that nobody touches afterwards). Every result is KEPT
+    by the caller (as a list comprehension ``[f(x) for x in xs]`` does) while the other thunks are evaluated; a kept result that
+    has changed at the end was handed out as (a view of) a buffer that a later call overwrote."""
+    kept = []
+    for site, desc, f in thunks:
+        y = f()
+        ctx.mon(mon)
+        kept.append((site, desc, y, _norm_result(y)))
+    bad = set()
+    for site, desc, y, y0 in kept:
+        if not _same_result(_norm_result(y), y0) and site not in bad:
+            bad.add(site)
+            ctx.violation(site, "a result kept by the caller changed while the routine was called again with other arguments (results share a buffer)",
+                          {"call": desc, "when_returned": y0 if not isinstance(y0, list) else y0[0],
+                           "after_later_calls": _norm_result(y) if not isinstance(y, (list, tuple)) else _norm_result(y)[0]})
+    return not bad
+
+
+def inplace_check(ctx, calls, mon="inplace_arguments", prepare=None):
+    """calls: (site, f, argsets, kwargs) with argsets a list of >= 2 argument tuples of identical shapes. The caller owns ONE set
+    of argument arrays and refills them in place between the calls (a sweep ``for ...: q[:] = ...; f(t, q)``, a finite-difference
+    loop ``q[i] += h``); afterwards it calls again with fresh arrays holding the first values. Each value must equal (bitwise) the one
+    obtained with fresh arrays: a memo that recognises its argument by identity, or that stores a reference instead of a copy as its
+    key, or a result that is a view of the argument and is then cached, shows here."""
+    ok = True
+    for site, f, argsets, kw in calls:
+        fresh = lambda s: [np.array(a, copy=True) if isinstance(a, np.ndarray) else a for a in s]
+        if prepare is not None:
+            prepare()
+        ref = [_norm_result(f(*fresh(s), **kw)) for s in argsets]
+        if prepare is not None:
+            prepare()
+        bufs = fresh(argsets[0])
+        order = list(range(len(argsets))) + [0]
+        for j, k in enumerate(order):
+            if j == len(order) - 1:
+                args = fresh(argsets[k])          # other arrays, old values: must not be answered from the refilled buffer
+            else:
+                for b, a in zip(bufs, argsets[k]):
+                    if isinstance(b, np.ndarray):
+                        b[...] = a
+                args = [b if isinstance(b, np.ndarray) else a for b, a in zip(bufs, argsets[k])]
+            y = _norm_result(f(*args, **kw))
+            ctx.mon(mon)
+            if not _same_result(y, ref[k]):
+                ok = False
+                ctx.violation(site, "value differs when the caller refills one argument array in place between calls (instead of passing fresh arrays)",
+                              {"call_number": j, "arguments": [np.array(a) for a in argsets[k] if isinstance(a, np.ndarray)],
+                               "with_fresh_arrays": ref[k] if not isinstance(ref[k], list) else ref[k][0],
+                               "with_refilled_array": y if not isinstance(y, list) else y[0]})
+                break
+    return ok
+
+
 # ----------------------------------------------------------------------------------------------------------------------
 # representation twins: the same VALUES handed over in another legitimate numpy representation
 # ----------------------------------------------------------------------------------------------------------------------
